@@ -29,7 +29,11 @@ fn on_change(v: u8, a: Act) {
     }
 }
 
-fn selector_seq(n: usize) {
+/// `unsub_before`: `on_unsubscribe()` is delivered to the object before notification number
+/// `unsub_before` (usize::MAX: never) - the situation of a subscriber that is unsubscribed while
+/// a notification round whose snapshot contains it is in progress.  From then on the object
+/// may stay silent, but what it delivers must still differ from the value it last delivered.
+fn selector_seq(n: usize, unsub_before: usize) {
     unsafe {
         CB_N = 0;
     }
@@ -48,14 +52,21 @@ fn selector_seq(n: usize) {
     while i < n {
         let s: St = kani::any();
         let a: Act = kani::any();
+        if i == unsub_before {
+            sub.on_unsubscribe();
+        }
         let before = unsafe { CB_N };
         sub.on_notify(&s, &a);
         let after = unsafe { CB_N };
         let sel = s.val & 3;
-        let fire = match last {
+        let mut fire = match last {
             None => true,
             Some(l) => l != sel,
         };
+        if i >= unsub_before {
+            chk!(16, after == before || (fire && after == before + 1), "after on_unsubscribe the object may stay silent, but never delivers the value it last delivered again");
+            fire = after > before;
+        }
         if fire {
             exp_val[exp_n] = sel;
             exp_act[exp_n] = a;
@@ -91,14 +102,28 @@ fn selector_seq(n: usize) {
 harness! {
     #[kani::unwind(7)]
     fn u_selector_n3() {
-        selector_seq(3);
+        selector_seq(3, usize::MAX);
     }
 }
 
 harness! {
     #[kani::unwind(7)]
     fn u_selector_n5() {
-        selector_seq(5);
+        selector_seq(5, usize::MAX);
+    }
+}
+
+harness! {
+    #[kani::unwind(7)]
+    fn u_selector_n3_unsub_before_last() {
+        selector_seq(3, 2);
+    }
+}
+
+harness! {
+    #[kani::unwind(7)]
+    fn u_selector_n4_unsub_before_third() {
+        selector_seq(4, 2);
     }
 }
 
